@@ -360,12 +360,20 @@ func (cm *CMap) parseBfRangeSectionWithArrays(section string) error {
 		if strings.Contains(line, "[") {
 			// Array format: <start> <end> [<u1> <u2> ...]
 			// This may span multiple lines
-			fullLine := line
-			for !strings.Contains(fullLine, "]") && i+1 < len(lines) {
+			// Only the piece just appended is searched for the closing bracket, and the pieces are
+			// collected in a builder: re-scanning and re-copying the whole joined line for every
+			// input line made an unclosed '[' cost quadratic time (1 MB: half a minute).
+			var fullLine strings.Builder
+			fullLine.WriteString(line)
+			closed := strings.Contains(line, "]")
+			for !closed && i+1 < len(lines) {
 				i++
-				fullLine += " " + strings.TrimSpace(lines[i])
+				next := strings.TrimSpace(lines[i])
+				fullLine.WriteString(" ")
+				fullLine.WriteString(next)
+				closed = strings.Contains(next, "]")
 			}
-			cm.parseBfRangeArray(fullLine)
+			cm.parseBfRangeArray(fullLine.String())
 			i++
 			continue
 		}
